@@ -20,7 +20,8 @@ ApplyScore(s, e) ==
       shape == ShapeOK(e)
       bad  == IF shape THEN BadCells(e) ELSE {}
       un   == UnstripeDef(e.pssm, e.seq, W)
-      unok == ~e.full \/ e.unstripe = un
+      \* (back_ok: the recorder read the same list from the back through iter().rev(); present on kernel events only)
+      unok == ~e.full \/ (e.unstripe = un /\ ("back_ok" \in DOMAIN e => e.back_ok))
       idxok == \A q \in 1..Len(e.index) : e.index[q][2] = WindowScore(e.pssm, e.seq, e.index[q][1], W)
       ok   == shape /\ bad = {} /\ unok /\ idxok
   IN [ok |-> ok, st |-> s,
